@@ -61,6 +61,24 @@ class ExprNorm(ast.NodeTransformer):
 
     def visit_Call(self, n):
         self.generic_visit(n)
+        # "track_{:06d}".format(i)  →  f"track_{i:06d}"   (automatic numbering, positional arguments only)
+        if isinstance(n.func, ast.Attribute) and n.func.attr == "format" and isinstance(n.func.value, ast.Constant) and isinstance(n.func.value.value, str) and n.args and not n.keywords \
+                and not any(isinstance(a, ast.Starred) for a in n.args):
+            import re as _re
+
+            parts = _re.split(r"(\{[^{}]*\})", n.func.value.value)
+            fields = [p_ for p_ in parts if p_.startswith("{") and p_.endswith("}")]
+            if len(fields) == len(n.args) and all(_re.fullmatch(r"\{(:[^{}!]*)?\}", f_) for f_ in fields) and "{{" not in n.func.value.value and "}}" not in n.func.value.value:
+                vals, k = [], 0
+                for p_ in parts:
+                    if p_.startswith("{") and p_.endswith("}"):
+                        spec = p_[2:-1] if p_.startswith("{:") else ""
+                        fs = ast.JoinedStr(values=[ast.Constant(value=spec)]) if spec else None
+                        vals.append(ast.FormattedValue(value=n.args[k], conversion=-1, format_spec=fs))
+                        k += 1
+                    elif p_:
+                        vals.append(ast.Constant(value=p_))
+                return ast.copy_location(ast.JoinedStr(values=vals), n)
         # getattr(obj, "name")  →  obj.name
         if isinstance(n.func, ast.Name) and n.func.id == "getattr" and len(n.args) == 2 and not n.keywords and isinstance(n.args[1], ast.Constant) \
                 and isinstance(n.args[1].value, str) and n.args[1].value.isidentifier():
@@ -162,9 +180,37 @@ def split_assign(s):
     return [s]
 
 
+def fold_tuple_temp(stmts):
+    """T = CALL; … X[T] …; a, b = T   →   a, b = CALL; … X[a, b] …   (T is used for nothing else in the block)"""
+    out = list(stmts)
+    for k, d in enumerate(out):
+        if not (isinstance(d, ast.Assign) and len(d.targets) == 1 and isinstance(d.targets[0], ast.Tuple) and all(isinstance(e, ast.Name) for e in d.targets[0].elts) and isinstance(d.value, ast.Name)):
+            continue
+        T = d.value.id
+        defs = [i for i, x in enumerate(out[:k]) if isinstance(x, ast.Assign) and len(x.targets) == 1 and isinstance(x.targets[0], ast.Name) and x.targets[0].id == T]
+        if len(defs) != 1 or not isinstance(out[defs[0]].value, ast.Call):
+            continue
+        i0 = defs[0]
+        names = [e.id for e in d.targets[0].elts]
+        between = out[i0 + 1:k]
+        uses = [x for b in between for x in ast.walk(b) if isinstance(x, ast.Name) and x.id == T]
+        subs = [x for b in between for x in ast.walk(b) if isinstance(x, ast.Subscript) and isinstance(x.slice, ast.Name) and x.slice.id == T]
+        later = [x for b in out[k + 1:] for x in ast.walk(b) if isinstance(x, ast.Name) and x.id == T]
+        clash = [x for b in between for x in ast.walk(b) if isinstance(x, ast.Name) and x.id in names]
+        if len(uses) != len(subs) or later or clash:
+            continue
+        for sub in subs:
+            sub.slice = ast.copy_location(ast.Tuple(elts=[ast.Name(id=n_, ctx=ast.Load()) for n_ in names], ctx=ast.Load()), sub.slice)
+        new_d = ast.copy_location(ast.Assign(targets=[d.targets[0]], value=out[i0].value, lineno=out[i0].lineno), out[i0])
+        out[i0] = new_d
+        del out[k]
+        return fold_tuple_temp(out)
+    return out
+
+
 def norm_block(stmts):
     out = []
-    for s in hoist_walrus(list(stmts)):
+    for s in fold_tuple_temp(hoist_walrus(list(stmts))):
         norm_stmt(s)
         out.extend(split_assign(s))
     return norm_table_loops(norm_index_loops(norm_loops(out)))
@@ -455,7 +501,10 @@ def hoist_walrus(stmts):
                     out.extend(pre)
                     out.append(s)
                 else:
-                    neg = ExprNorm().visit(ast.copy_location(ast.UnaryOp(op=ast.Not(), operand=test), test))
+                    if isinstance(test, ast.UnaryOp) and isinstance(test.op, ast.Not):
+                        neg = test.operand  # `while not P` leaves the loop exactly when P holds
+                    else:
+                        neg = ExprNorm().visit(ast.copy_location(ast.UnaryOp(op=ast.Not(), operand=test), test))
                     brk = ast.copy_location(ast.If(test=neg, body=[ast.copy_location(ast.Break(), s)], orelse=[]), s)
                     s.test = ast.copy_location(ast.Constant(value=True), s)
                     s.body = pre + [brk] + list(s.body)
@@ -1231,6 +1280,134 @@ class Inliner:
                     k = blk.index(st)
                     blk[k:k + 1] = rep
 
+        # ---- map(helper, a, b) → (helper(x0, x1) for x0, x1 in zip(a, b))
+        nested_defs = {x.name: x for x in ast.walk(fdef) if isinstance(x, ast.FunctionDef) and x is not fdef and x.name not in NESTED_ANCHORS}
+
+        class M(ast.NodeTransformer):
+            def visit_Call(self, n):
+                self.generic_visit(n)
+                if isinstance(n.func, ast.Name) and n.func.id == "map" and len(n.args) >= 2 and not n.keywords and not any(isinstance(a, ast.Starred) for a in n.args):
+                    f = n.args[0]
+                    # map(F, …) applies F to the items in order, lazily: for any named callable it is the generator below
+                    known = isinstance(f, (ast.Name, ast.Attribute))
+                    if known:
+                        inl.counter += 1
+                        vs = [f"_m{inl.counter}_{i}" for i in range(len(n.args) - 1)]
+                        call = ast.Call(func=f, args=[ast.Name(id=v, ctx=ast.Load()) for v in vs], keywords=[])
+                        if len(vs) == 1:
+                            tgt, it = ast.Name(id=vs[0], ctx=ast.Store()), n.args[1]
+                        else:
+                            tgt = ast.Tuple(elts=[ast.Name(id=v, ctx=ast.Store()) for v in vs], ctx=ast.Store())
+                            it = ast.Call(func=ast.Name(id="zip", ctx=ast.Load()), args=list(n.args[1:]), keywords=[])
+                        g = ast.GeneratorExp(elt=call, generators=[ast.comprehension(target=tgt, iter=it, ifs=[], is_async=0)])
+                        return ast.fix_missing_locations(ast.copy_location(g, n))
+                # itertools.starmap(F, zip(a, b)) → (F(x0, x1) for x0, x1 in zip(a, b))
+                if ast.unparse(n.func) in ("itertools.starmap", "starmap") and len(n.args) == 2 and not n.keywords and isinstance(n.args[0], (ast.Name, ast.Attribute)):
+                    f, it = n.args
+                    inl.counter += 1
+                    if isinstance(it, ast.Call) and ast.unparse(it.func) == "zip" and it.args and not it.keywords and not any(isinstance(a, ast.Starred) for a in it.args):
+                        vs = [f"_m{inl.counter}_{i}" for i in range(len(it.args))]
+                        call = ast.Call(func=f, args=[ast.Name(id=v, ctx=ast.Load()) for v in vs], keywords=[])
+                        tgt = ast.Tuple(elts=[ast.Name(id=v, ctx=ast.Store()) for v in vs], ctx=ast.Store()) if len(vs) > 1 else ast.Name(id=vs[0], ctx=ast.Store())
+                        if len(vs) == 1:
+                            it = it.args[0]
+                    else:
+                        v = f"_m{inl.counter}"
+                        call = ast.Call(func=f, args=[ast.Starred(value=ast.Name(id=v, ctx=ast.Load()), ctx=ast.Load())], keywords=[])
+                        tgt = ast.Name(id=v, ctx=ast.Store())
+                    g = ast.GeneratorExp(elt=call, generators=[ast.comprehension(target=tgt, iter=it, ifs=[], is_async=0)])
+                    return ast.fix_missing_locations(ast.copy_location(g, n))
+                # zip(itertools.count(k), X) → enumerate(X, k)
+                if isinstance(n.func, ast.Name) and n.func.id == "zip" and len(n.args) == 2 and not n.keywords and isinstance(n.args[0], ast.Call) \
+                        and ast.unparse(n.args[0].func) in ("itertools.count", "count") and len(n.args[0].args) <= 1 and not n.args[0].keywords:
+                    start = n.args[0].args[0] if n.args[0].args else ast.Constant(value=0)
+                    e = ast.Call(func=ast.Name(id="enumerate", ctx=ast.Load()), args=[n.args[1]] + ([start] if not (isinstance(start, ast.Constant) and start.value == 0) else []), keywords=[])
+                    return ast.fix_missing_locations(ast.copy_location(e, n))
+                return n
+
+        M().visit(fdef)
+
+        # ---- callback + args:  quad(_helper, …, args=(a, b))  →  a local function that calls the helper with (x…, a, b)
+        for blk in _blocks_all(fdef):
+            for st in list(blk):
+                if isinstance(st, (ast.FunctionDef, ast.ClassDef, ast.If, ast.For, ast.While, ast.Try, ast.With)):
+                    continue
+                for c in [x for x in ast.walk(st) if isinstance(x, ast.Call)]:
+                    kw = [k for k in c.keywords if k.arg == "args"]
+                    if len(kw) != 1 or not isinstance(kw[0].value, ast.Tuple) or not c.args or not isinstance(c.args[0], ast.Name):
+                        continue
+                    hname = c.args[0].id
+                    hdef = self.funcs.get(hname)
+                    if hdef is None or not hname.startswith("_") or hdef.args.vararg or hdef.args.kwarg or hdef.args.kwonlyargs or hdef.decorator_list:
+                        continue
+                    extra = kw[0].value.elts
+                    pos = hdef.args.posonlyargs + hdef.args.args
+                    if len(extra) >= len(pos) or any(isinstance(e_, ast.Starred) for e_ in extra):
+                        continue
+                    lead = pos[:len(pos) - len(extra)]
+                    self.counter += 1
+                    bname = f"{hname.strip('_')}_bound{self.counter}"
+                    call = ast.Call(func=ast.Name(id=hname, ctx=ast.Load()), args=[ast.Name(id=a_.arg, ctx=ast.Load()) for a_ in lead] + [copy.deepcopy(e_) for e_ in extra], keywords=[])
+                    fd = ast.FunctionDef(name=bname, args=ast.arguments(posonlyargs=[], args=[ast.arg(arg=a_.arg) for a_ in lead], vararg=None, kwonlyargs=[], kw_defaults=[], kwarg=None, defaults=[]),
+                                         body=[ast.Return(value=call)], decorator_list=[], returns=None, type_comment=None, lineno=st.lineno)
+                    if hasattr(ast, "TypeVar"):
+                        fd.type_params = []
+                    ast.copy_location(fd, st)
+                    ast.fix_missing_locations(fd)
+                    c.args[0] = ast.copy_location(ast.Name(id=bname, ctx=ast.Load()), c.args[0])
+                    c.keywords = [k for k in c.keywords if k.arg != "args"]
+                    blk.insert(blk.index(st), fd)
+
+        # ---- F = _helper; A = (a, b) per branch and calls F(*A)  →  a local function F() per branch that calls the helper with (a, b)
+        f_stores, a_loads = {}, {}
+        for x in ast.walk(fdef):
+            if isinstance(x, ast.Assign) and len(x.targets) == 1 and isinstance(x.targets[0], ast.Name) and isinstance(x.value, ast.Name) and x.value.id in self.funcs and x.value.id.startswith("_"):
+                f_stores.setdefault(x.targets[0].id, []).append(x)
+        for F, asgs in f_stores.items():
+            bare_ann = {id(x.target) for x in ast.walk(fdef) if isinstance(x, ast.AnnAssign) and x.value is None}
+            all_stores = [x for x in ast.walk(fdef) if isinstance(x, ast.Name) and x.id == F and isinstance(x.ctx, ast.Store) and id(x) not in bare_ann]
+            if len(all_stores) != len(asgs):
+                continue
+            calls = [c for c in ast.walk(fdef) if isinstance(c, ast.Call) and isinstance(c.func, ast.Name) and c.func.id == F]
+            loads = [x for x in ast.walk(fdef) if isinstance(x, ast.Name) and x.id == F and isinstance(x.ctx, ast.Load)]
+            if not calls or len(loads) != len(calls):
+                continue
+            if not all(len(c.args) == 1 and isinstance(c.args[0], ast.Starred) and isinstance(c.args[0].value, ast.Name) and not c.keywords for c in calls):
+                continue
+            A = calls[0].args[0].value.id
+            if any(c.args[0].value.id != A for c in calls):
+                continue
+            a_uses = [x for x in ast.walk(fdef) if isinstance(x, ast.Name) and x.id == A and isinstance(x.ctx, ast.Load)]
+            if len(a_uses) != len(calls):
+                continue
+            plan = []
+            okp = True
+            for asg in asgs:
+                blk = next((b for b in _blocks_all(fdef) if asg in b), None)
+                tup = [x for x in (blk or []) if isinstance(x, ast.Assign) and len(x.targets) == 1 and isinstance(x.targets[0], ast.Name) and x.targets[0].id == A and isinstance(x.value, ast.Tuple)]
+                if blk is None or len(tup) != 1:
+                    okp = False
+                    break
+                plan.append((blk, asg, tup[0]))
+            a_stores = [x for x in ast.walk(fdef) if isinstance(x, ast.Name) and x.id == A and isinstance(x.ctx, ast.Store) and id(x) not in bare_ann]
+            if not okp or len(a_stores) != len(plan):
+                continue
+            for blk, asg, tup in plan:
+                call = ast.Call(func=ast.Name(id=asg.value.id, ctx=ast.Load()), args=[copy.deepcopy(e_) for e_ in tup.value.elts], keywords=[])
+                fd = ast.FunctionDef(name=F, args=ast.arguments(posonlyargs=[], args=[], vararg=None, kwonlyargs=[], kw_defaults=[], kwarg=None, defaults=[]),
+                                     body=[ast.Return(value=call)], decorator_list=[], returns=None, type_comment=None, lineno=asg.lineno)
+                if hasattr(ast, "TypeVar"):
+                    fd.type_params = []
+                ast.copy_location(fd, asg)
+                ast.fix_missing_locations(fd)
+                blk[blk.index(asg)] = fd
+                blk[blk.index(tup)] = ast.copy_location(ast.Pass(), tup)
+            for c in calls:
+                c.args = []
+            # annotations of the two variables (`F: Callable`, `A: tuple`) without a value carry no behaviour
+            for blk in _blocks_all(fdef):
+                blk[:] = [x for x in blk if not (isinstance(x, ast.AnnAssign) and x.value is None and isinstance(x.target, ast.Name) and x.target.id in (F, A))] or [ast.Pass()]
+
         # ---- loops over a module-level literal table: the table's rows stand in the loop header (N7 then unrolls them)
         local_stores = {x.id for x in ast.walk(fdef) if isinstance(x, ast.Name) and isinstance(x.ctx, (ast.Store, ast.Del))}
         touched = False
@@ -1393,6 +1570,27 @@ class Inliner:
                 _G().visit(fdef)
                 blk[blk.index(st)] = ast.copy_location(ast.Pass(), st)
 
+        # ---- for key, x in zip((E(v) for v in itertools.count(k)), X)  →  for v, x in enumerate(X, k): key = E(v)
+        for lp in [x for x in ast.walk(fdef) if isinstance(x, ast.For)]:
+            it = lp.iter
+            if not (isinstance(it, ast.Call) and isinstance(it.func, ast.Name) and it.func.id == "zip" and len(it.args) == 2 and not it.keywords and isinstance(lp.target, ast.Tuple) and len(lp.target.elts) == 2):
+                continue
+            g = it.args[0]
+            if not (isinstance(g, ast.GeneratorExp) and len(g.generators) == 1 and not g.generators[0].ifs and isinstance(g.generators[0].target, ast.Name)):
+                continue
+            src = g.generators[0].iter
+            if not (isinstance(src, ast.Call) and ast.unparse(src.func) in ("itertools.count", "count") and len(src.args) <= 1 and not src.keywords):
+                continue
+            v = g.generators[0].target.id
+            start = src.args[0] if src.args else None
+            key_t = lp.target.elts[0]
+            lp.iter = ast.copy_location(ast.Call(func=ast.Name(id="enumerate", ctx=ast.Load()), args=[it.args[1]] + ([start] if start is not None else []), keywords=[]), it)
+            lp.target = ast.copy_location(ast.Tuple(elts=[ast.Name(id=v, ctx=ast.Store()), lp.target.elts[1]], ctx=ast.Store()), lp.target)
+            lp.body = [ast.copy_location(ast.Assign(targets=[key_t], value=g.elt, lineno=lp.lineno), lp)] + list(lp.body)
+            ast.fix_missing_locations(lp)
+
+        M().visit(fdef)  # once more: iterator variables have been inlined into zip(…) / map(…) calls by now
+
         # ---- T = functools.reduce(operator.OP, ITER, INIT)  →  T = INIT; for x in ITER: T = T OP x   (left fold, same order)
         OPS = {"add": ast.Add, "iadd": ast.Add, "mul": ast.Mult, "imul": ast.Mult, "sub": ast.Sub, "isub": ast.Sub, "or_": ast.BitOr, "ior": ast.BitOr, "and_": ast.BitAnd, "iand": ast.BitAnd}
         for blk in _blocks_all(fdef):
@@ -1451,52 +1649,6 @@ class Inliner:
                     ast.fix_missing_locations(t)
                     blk[blk.index(st)] = t
 
-        # ---- map(helper, a, b) → (helper(x0, x1) for x0, x1 in zip(a, b))
-        nested_defs = {x.name: x for x in ast.walk(fdef) if isinstance(x, ast.FunctionDef) and x is not fdef and x.name not in NESTED_ANCHORS}
-
-        class M(ast.NodeTransformer):
-            def visit_Call(self, n):
-                self.generic_visit(n)
-                if isinstance(n.func, ast.Name) and n.func.id == "map" and len(n.args) >= 2 and not n.keywords and not any(isinstance(a, ast.Starred) for a in n.args):
-                    f = n.args[0]
-                    # map(F, …) applies F to the items in order, lazily: for any named callable it is the generator below
-                    known = isinstance(f, (ast.Name, ast.Attribute))
-                    if known:
-                        inl.counter += 1
-                        vs = [f"_m{inl.counter}_{i}" for i in range(len(n.args) - 1)]
-                        call = ast.Call(func=f, args=[ast.Name(id=v, ctx=ast.Load()) for v in vs], keywords=[])
-                        if len(vs) == 1:
-                            tgt, it = ast.Name(id=vs[0], ctx=ast.Store()), n.args[1]
-                        else:
-                            tgt = ast.Tuple(elts=[ast.Name(id=v, ctx=ast.Store()) for v in vs], ctx=ast.Store())
-                            it = ast.Call(func=ast.Name(id="zip", ctx=ast.Load()), args=list(n.args[1:]), keywords=[])
-                        g = ast.GeneratorExp(elt=call, generators=[ast.comprehension(target=tgt, iter=it, ifs=[], is_async=0)])
-                        return ast.fix_missing_locations(ast.copy_location(g, n))
-                # itertools.starmap(F, zip(a, b)) → (F(x0, x1) for x0, x1 in zip(a, b))
-                if ast.unparse(n.func) in ("itertools.starmap", "starmap") and len(n.args) == 2 and not n.keywords and isinstance(n.args[0], (ast.Name, ast.Attribute)):
-                    f, it = n.args
-                    inl.counter += 1
-                    if isinstance(it, ast.Call) and ast.unparse(it.func) == "zip" and it.args and not it.keywords and not any(isinstance(a, ast.Starred) for a in it.args):
-                        vs = [f"_m{inl.counter}_{i}" for i in range(len(it.args))]
-                        call = ast.Call(func=f, args=[ast.Name(id=v, ctx=ast.Load()) for v in vs], keywords=[])
-                        tgt = ast.Tuple(elts=[ast.Name(id=v, ctx=ast.Store()) for v in vs], ctx=ast.Store()) if len(vs) > 1 else ast.Name(id=vs[0], ctx=ast.Store())
-                        if len(vs) == 1:
-                            it = it.args[0]
-                    else:
-                        v = f"_m{inl.counter}"
-                        call = ast.Call(func=f, args=[ast.Starred(value=ast.Name(id=v, ctx=ast.Load()), ctx=ast.Load())], keywords=[])
-                        tgt = ast.Name(id=v, ctx=ast.Store())
-                    g = ast.GeneratorExp(elt=call, generators=[ast.comprehension(target=tgt, iter=it, ifs=[], is_async=0)])
-                    return ast.fix_missing_locations(ast.copy_location(g, n))
-                # zip(itertools.count(k), X) → enumerate(X, k)
-                if isinstance(n.func, ast.Name) and n.func.id == "zip" and len(n.args) == 2 and not n.keywords and isinstance(n.args[0], ast.Call) \
-                        and ast.unparse(n.args[0].func) in ("itertools.count", "count") and len(n.args[0].args) <= 1 and not n.args[0].keywords:
-                    start = n.args[0].args[0] if n.args[0].args else ast.Constant(value=0)
-                    e = ast.Call(func=ast.Name(id="enumerate", ctx=ast.Load()), args=[n.args[1]] + ([start] if not (isinstance(start, ast.Constant) and start.value == 0) else []), keywords=[])
-                    return ast.fix_missing_locations(ast.copy_location(e, n))
-                return n
-
-        M().visit(fdef)
 
         # ---- reads of private properties are calls of their getters
         if cls_name:
@@ -1530,6 +1682,7 @@ class Inliner:
                     return n
 
             P().visit(fdef)
+        ExprNorm().visit(fdef)
 
     def _inline_generator(self, loop, gdef, used_names, recv=None):
         gbody = [x for x in gdef.body if not (isinstance(x, ast.Expr) and isinstance(x.value, ast.Constant))]
